@@ -234,3 +234,39 @@ PROPS["C01"] = dict(
         technique="property-based testing (rapid) + native go fuzzing against a terminal-cleanliness recogniser",
     ),
 )
+
+
+_NET = "[network]\ntimeout_seconds = 2\n"
+
+PROPS["C03"] = dict(
+    pkg="c03",
+    level="exploration",
+    rule=("worlds of 1..8 URLs on three loopback TLS hosts, each a final response assembled from labelled parts (status line: valid "
+          "200-203 variants / statement-silent variants / every other code and malformed lines; 0..4 header lines: tolerated, "
+          "untolerated, malformed, statement-silent and unrelated Content-Type-like lines, CRLF or LF, missing blank line; body: "
+          "object / object+garbage / array, scalar, null, truncated, empty) or a redirect (301/302/303/307/308; Location absolute, "
+          "path-absolute, scheme-relative, relative, query-only, missing, http, other scheme, unparsable; header name spellings; "
+          "cycles and self-loops). (Single) one fetch through jtp.Get with budgets 0..4 and both accept profiles; (History) 2..10 "
+          "fetches with a constant budget, run in processes with cache sizes 1, 2, 3 and 128. Oracle: the verdict forced by the labels "
+          "(MUST-document with deep-equal JSON and source = final URL, MUST-error with no document, MAY where the statement is silent), "
+          "the simulator's request log (<= budget+1 requests, each on the expected hop sequence, in order), equal answers for equal "
+          "fetches within a history, and no plaintext connection. Non-trivial: the fetched node is a redirect or its response is not "
+          "the plain 200 + one JSON content type + object. Distinct = distinct (world, fetches)."),
+    units=[
+        rapid("Single", "TestSingle", 6000, 200000, config_toml=_NET + "cache_size = 128\n"),
+        rapid("History", "TestHistory", 1500, 40000, shards=(2, 4), config_toml=_NET + "cache_size = 128\n"),
+        rapid("HistoryCache1", "TestHistory", 1500, 40000, shards=(2, 4), config_toml=_NET + "cache_size = 1\n"),
+        rapid("HistoryCache2", "TestHistory", 1500, 40000, shards=(2, 4), config_toml=_NET + "cache_size = 2\n"),
+        rapid("HistoryCache3", "TestHistory", 1500, 40000, shards=(2, 4), config_toml=_NET + "cache_size = 3\n"),
+    ],
+    manifest=dict(
+        text=("Property-based testing against a loopback TLS simulator: responses and redirect graphs are generated from labelled "
+              "parts so the required verdict is known by construction (three-valued: must-document / must-error / statement silent), "
+              "and the simulator's request log gives the redirect accounting; fetch histories are replayed in processes with "
+              "different cache sizes and compared with the history-free reference. Sampled."),
+        design_ref="DESIGN.md §3 C03",
+        note=("Trusted: the labels of the response parts (harness/c03), the simulator, encoding/json for the expected document. "
+              "Certificate validation is Go's and is not attacked."),
+        technique="property-based testing (rapid) with a reference classifier by construction and a request-log oracle; stateful fetch histories",
+    ),
+)
